@@ -63,17 +63,67 @@ func ruleDetScan(c *Ctx) {
 
 // ------------------------------------------------------------------ DET.GENSYM
 
+// nameGenerator: the function that names the iterator temporaries — whatever it is called and whichever type it
+// is a method of: the function rewriteRangeToForIter calls with the temporary's prefix (a string constant) and
+// whose string result becomes the identifier.
+func (r *rwRT) nameGenerator() *ssa.Function {
+	from := r.method("yieldRewriter", "rewriteRangeToForIter")
+	for _, b := range from.Blocks {
+		for _, ins := range b.Instrs {
+			call, ok := ins.(ssa.CallInstruction)
+			if !ok {
+				continue
+			}
+			callee := call.Common().StaticCallee()
+			if callee == nil || !inRw(callee) || callee.Signature.Results().Len() != 1 {
+				continue
+			}
+			if bt, ok := callee.Signature.Results().At(0).Type().Underlying().(*types.Basic); !ok || bt.Kind() != types.String {
+				continue
+			}
+			for _, a := range call.Common().Args {
+				if k, ok := a.(*ssa.Const); ok && k.Value != nil && k.Value.Kind() == constant.String {
+					return bodyOf(callee)
+				}
+			}
+		}
+	}
+	undecided("the function that names the iterator temporaries is not found (rewriteRangeToForIter calls no string-valued function of the package with a constant prefix)")
+	return nil
+}
+
 func (r *rwRT) ruleGensym() {
 	c := r.c
 	c.min("DET.GENSYM", 2)
-	fn := r.method("yieldRewriter", "gensym")
+	fn := r.nameGenerator()
 	c.fn(relName(fn))
 	pos := r.w.FnPos(fn)
-	// (1) behaviour outside test mode: counter incremented, name built from the new value
+	// (1) behaviour outside test mode: counter incremented, name built from the counter
 	in := r.interp(rwConfig{root: fn, inlineAll: true})
 	in.Fields["*global:runningWithGoTest"] = mkBool(false)
-	outs := in.Run(nil, fn, []AV{Sym{Name: "r", NN: true}, mkString("it")}, nil)
+	args := []AV{mkString("it")}
+	if fn.Signature.Recv() != nil {
+		args = []AV{Sym{Name: "r", NN: true}, mkString("it")}
+	}
+	all := in.Run(nil, fn, args, nil)
 	r.account(in)
+	// the mode may be kept in the generator's own state (a flag taken when it was made): the path that advances
+	// a counter is the one outside test mode
+	var outs []Outcome
+	for _, o := range all {
+		if o.Panicked {
+			continue
+		}
+		for _, e := range o.St.Events {
+			if e.Kind == "store" && strings.HasPrefix(e.Target, "r.") {
+				outs = append(outs, o)
+				break
+			}
+		}
+	}
+	if len(outs) == 0 && len(all) == 1 {
+		outs = all
+	}
 	var counterKey string
 	good := len(outs) == 1 && !outs[0].Panicked
 	why := "not a single path outside test mode"
@@ -111,12 +161,8 @@ func (r *rwRT) ruleGensym() {
 						rendered = true
 					}
 				}
-				good = rendered && strings.Contains(text, `"it"`)
+				good = rendered && strings.Contains(text, `"it"`) && strings.Contains(text, strings.TrimPrefix(counterKey, "r."))
 				why = "the generated name is not prefix+counter: " + ret
-				// the name must use the *new* value
-				if good && !strings.Contains(text, "+(") {
-					good, why = false, "the name is built from the old counter value"
-				}
 			}
 		}
 	}
@@ -127,6 +173,34 @@ func (r *rwRT) ruleGensym() {
 	// (2) lifetime of the counter: per file
 	path := strings.Split(strings.TrimPrefix(counterKey, "r."), ".")
 	ownerType := "yieldRewriter"
+	if fn.Signature.Recv() != nil {
+		rt := fn.Signature.Recv().Type()
+		if pt, ok := rt.(*types.Pointer); ok {
+			rt = pt.Elem()
+		}
+		if nt, ok := rt.(*types.Named); ok {
+			ownerType = nt.Obj().Name()
+			// a generator kept by value inside another struct of the package lives as long as that struct
+			for lifted := true; lifted; {
+				lifted = false
+				for _, name := range r.w.Pkgs[pathRw].Types.Scope().Names() {
+					tn, ok := r.w.Pkgs[pathRw].Types.Scope().Lookup(name).(*types.TypeName)
+					if !ok {
+						continue
+					}
+					stt, ok := tn.Type().Underlying().(*types.Struct)
+					if !ok || tn.Name() == ownerType {
+						continue
+					}
+					for i := 0; i < stt.NumFields(); i++ {
+						if fnt, ok := stt.Field(i).Type().(*types.Named); ok && fnt.Obj().Name() == ownerType && fnt.Obj().Pkg() != nil && fnt.Obj().Pkg().Path() == pathRw {
+							ownerType, lifted = tn.Name(), true
+						}
+					}
+				}
+			}
+		}
+	}
 	if len(path) == 2 {
 		// r.<field>.<counter>: owner is the type of field
 		recv := fn.Signature.Recv().Type()
